@@ -94,6 +94,10 @@ pub fn judge(case: &Case) -> Outcome {
                 }
             }
             for p in &passing {
+                if failing.contains(p) {
+                    // the same document fails in the other list: it has to be named
+                    continue;
+                }
                 if text.contains(p.as_str()) {
                     return Outcome::Violation(format!("validation error names the passing example {p}: {e}"));
                 }
@@ -153,6 +157,11 @@ pub fn run(tier: &str, seed: u64) -> i32 {
             };
             let mut p: Vec<Y> = tps.iter().map(&mut mk).collect();
             let mut ng: Vec<Y> = tns.iter().map(&mut mk).collect();
+            // now and then the same example appears in both lists (it must then fail one of them)
+            if *sw != Some(7) && !p.is_empty() && counter % 4 == 0 {
+                let dup = p[counter % p.len()].clone();
+                ng.push(dup);
+            }
             if let Some((kind, in_pos, at)) = bad {
                 let v = match kind {
                     0 => Y::Number(1.into()),
